@@ -755,12 +755,16 @@ class TorControlProtocol(LineOnlyReceiver):
             return
 
         if len(self.commands):
-            self.command = self.commands.pop(0)
-            (d, cmd, cmd_arg) = self.command
+            command = self.commands.pop(0)
+            (d, cmd, cmd_arg) = command
 
+            # after a disconnect the command fails at once; it must not
+            # become "the command in flight" or later ones would wait
+            # behind it forever
             if self._when_disconnected.already_fired(d):
                 return
 
+            self.command = command
             self.defer = d
 
             self.debuglog.write(cmd + b'\n')
